@@ -354,6 +354,17 @@ def c07c(tree, ob):
             if not okitem:
                 ob.violate(rel, cnode.name, src(call), 'length field {} is compared with {} instead of {}'.format(fld.name, txt, target), call)
                 continue
+            # what is measured is octets: reading a text field as an attribute hands out its human form (i2h = decode), and
+            # bytes() of a str raises TypeError -- not a VerifyError -- out of the dissection and so out of the receive callback
+            if target != 'payload' and txt == 'self.' + target:
+                tk = [f for f in flds if f.name == target]
+                if tk and tree.has_class('tcpcl/formats.py', tk[0].kind):
+                    kcls = tree.klass('tcpcl/formats.py', tk[0].kind)
+                    i2h = [m for m in kcls.body if isinstance(m, ast.FunctionDef) and m.name == 'i2h']
+                    if i2h and any(isinstance(c2.func, ast.Attribute) and c2.func.attr == 'decode' for c2 in calls_in(i2h[0])):
+                        ob.violate(rel, cnode.name + '.post_dissection', src(call)[:80] + '  ({} is a {})'.format(target, tk[0].kind), 'the item measured is a text field read as an attribute: the attribute is its decoded '
+                                   'text, bytes() of it raises TypeError, which is no VerifyError -- a header of this kind makes the receive callback raise instead of being refused (the connection is never closed)', call, sure=True)
+                        continue
             # guards: only "value is not None" style; a truthiness guard skips the check for an empty value
             facts = fvp.facts(call) or frozenset()
             truthy = [f for f in facts if f[1] is True and ' ' not in f[0] and not f[0].startswith('self.') and '(' not in f[0]]
